@@ -432,7 +432,7 @@ Definition find_regexp_shortcut (pattern : bytes) : bytes :=
   let p := strip_brackets n "{"%byte "}"%byte p in
   let p := strip_brackets n "["%byte "]"%byte p in
   let p := strip_escaped p in
-  if existsb (fun c => mem_byte c $"([{") p then [] else
+  if existsb (fun c => mem_byte c $"([{)]}") p then [] else
   longest (split_specials p []).
 
 Definition is_regex_pattern (p : bytes) : bool :=
